@@ -157,6 +157,49 @@ def builder_scenario(chk, multi, fn_order=("b", "a"), rebuild=False):
     return enc, sa, sb, C
 
 
+def engine_seed_check(chk):
+    """EngineBuilder.set_engine_seed: a single key is split into one seed per chain; per-chain keys are used as given"""
+    import liesel.goose as gs
+    import liesel.goose.builder as bld
+
+    def f(seed_key, ekey, per_chain):
+        real_engine = bld.Engine
+        bld.Engine = RecEngine
+        try:
+            b = gs.EngineBuilder(seed_key, 2)
+            b.set_model(gs.DictInterface(lambda s: -0.5 * s["b"] ** 2))
+            b.set_initial_values({"b": jnp.array(0.5)})
+            b.add_kernel(gs.RWKernel(["b"]))
+            b.set_epochs([gs.EpochConfig(gs.EpochType.INITIAL_VALUES, 1, 1, None), gs.EpochConfig(gs.EpochType.POSTERIOR, 2, 1, None)])
+            b.set_engine_seed(ekey)
+            b.build()
+            one = RecEngine.last["seeds"]
+            b.set_engine_seed(per_chain)
+            b.build()
+            two = RecEngine.last["seeds"]
+        finally:
+            bld.Engine = real_engine
+        return dict(one=one, two=two)
+    k0, k1 = jax.random.PRNGKey(3), jax.random.PRNGKey(4)
+    pc = jax.random.split(jax.random.PRNGKey(5), 2)
+    pcs = np.stack([root_key("c0"), root_key("c1")])
+    enc = chk.note_enc(Enc("EngineBuilder.set_engine_seed + build", f, (k0, k1, pc), (root_key("seed"), root_key("e"), pcs), key_roots={"seed": k0, "e": k1, "c0": pc[0], "c1": pc[1]}))
+
+    class _Ob:
+        name = "set_engine_seed(key): the engine gets split(key, num_chains), independent of the builder seed; set_engine_seed(per-chain keys): the engine gets exactly those keys"
+        signature = "engine-seed"
+    one, two = enc.out["one"], enc.out["two"]
+    got1 = [repr(getattr(one[c, 0], "key", one[c, 0])) for c in range(2)]
+    got2 = [repr(getattr(two[c, 0], "key", two[c, 0])) for c in range(2)]
+    want1 = [f"Key('split', ('root', 'e'), (2,), ({c},))" for c in range(2)]
+    want2 = [f"Key('root', 'c{c}')" for c in range(2)]
+    if got1 == want1 and got2 == want2:
+        chk.results.append(Result(_Ob, "unsat", 0.0, {"tactic": "term equality"}))
+    else:
+        chk.violation(_Ob.signature, _Ob.name, dict(reproduced=True, observed=dict(single_key=got1, per_chain_keys=got2, expected_single=want1, expected_per_chain=want2),
+                                                    note="key terms read off the traced set_engine_seed()/build()"))
+
+
 def builder_obligations(chk, multi):
     enc, sa, sb, C = builder_scenario(chk, multi)
     tag = "per-chain initial states" if multi else "one initial state replicated"
@@ -288,11 +331,12 @@ def main():
             obs += res[0]
             chk.validate(res[1])
     chk.run(obs)
+    chk.guarded("engine-seed", "EngineBuilder.set_engine_seed / build()", engine_seed_check, chk)
     chk.guarded("hashseed", "tracing build() under several hash seeds", hashseed_reproducibility, chk)
     chk.functions += ["liesel.goose.engine.Engine (key handling: _split_prng_key, _kernel_start_epoch, _sample_for_duration, _end_epoch, _tune_kernels, _end_warmup)", "liesel.goose.kernel_sequence.KernelSequence (key splitting)",
                       "liesel.goose.builder.EngineBuilder.__init__/set_initial_values/set_jitter_fns/build", "liesel.goose.pytree.stack_leaves"]
     chk.bounds += ["engine schedules as in C07 (3 epochs, symbolic durations/thinning/chunk)", "2 chains, chunk of 2 transitions for non-interference; 2 chains, two position keys (vector and scalar) for the builder"]
-    chk.enumerated += [f"epoch types INITIAL,{','.join(map(str, s))}" for s, *_ in pl] + ["single state replicated", "per-chain states"]
+    chk.enumerated += [f"epoch types INITIAL,{','.join(map(str, s))}" for s, *_ in pl] + ["single state replicated", "per-chain states", "explicit engine seed (single key / per-chain keys)"]
     chk.assume("ideal PRNG: keys are terms of a free algebra (threefry collision-free); a draw is a function of its key term", "bit-identical reruns beyond key derivation (XLA determinism) are outside the claim",
                "quantity generators (0-2 recording generators, varied over the configurations) are part of the runs: their keys, call counts and stored outputs are checked", "fake environment contracts as in C07")
     return chk.finish(technique=TECH)
